@@ -8,6 +8,12 @@
 
 use flat_tree::{p2, anc, anc_idx, depth_of, offset_of, node_index};
 
+/// every instruction asks for a record of the tree store (what the core's read-retry drivers rely on)
+pub open spec fn instr_tree(ins: Seq<StoreInfoInstruction>) -> bool { forall|k: int| 0 <= k < ins.len() ==> (#[trigger] ins[k]).store == Store::Tree }
+pub open spec fn left_ok<T>(r: Result<Either<Vec<StoreInfoInstruction>, T>, HypercoreError>) -> bool {
+    r is Ok && r->Ok_0 is Left ==> r->Ok_0->Left_0@.len() > 0 && instr_tree(r->Ok_0->Left_0@)
+}
+
 /// an iterator positioned at most 42 levels up, on a node below 2^44: every move is in range
 pub open spec fn it_small(it: flat_tree::Iterator) -> bool { it.wf() && it.d@ <= 42 && it.index < 0x1000_0000_0000 }
 pub proof fn lemma_it_small(it: flat_tree::Iterator)
@@ -145,6 +151,7 @@ impl MerkleTree {
     requires:
         self.t_wf(), anc_idx(seek_root, root), depth_of(root) <= 43, root < 0x8000_0000_0000, seek_root < 0x8000_0000_0000
     ensures:
+        left_ok(r),
         final(p).nodes == old(p).nodes, final(p).upgrade == old(p).upgrade, final(p).additional_upgrade == old(p).additional_upgrade,
         r is Ok ==> final(p).seek is Some,
         r is Err ==> *final(p) == *old(p)
@@ -152,6 +159,7 @@ impl MerkleTree {
         proof { lemma_climb_start(iter, root); }
     loop 1:
         invariant
+            instr_tree(instructions@),
             climbing(iter, root), self.t_wf(), *p == *old(p)
         decreases depth_of(root) - iter.d@
     before `iter.sibling();`:
@@ -167,6 +175,7 @@ impl MerkleTree {
         indexed is Some ==> indexed->Some_0.index < 0x400_0000_0000 && anc_idx(indexed->Some_0.index, root),
         indexed is None ==> anc_idx(seek_root, root)
     ensures:
+        left_ok(r),
         final(p).upgrade == old(p).upgrade, final(p).additional_upgrade == old(p).additional_upgrade,
         r is Ok && indexed is Some ==> final(p).nodes is Some,
         r is Ok && indexed is None ==> final(p).seek is Some && final(p).nodes == old(p).nodes,
@@ -177,6 +186,7 @@ impl MerkleTree {
         let ghost p0 = *p;
     loop 1:
         invariant
+            instr_tree(instructions@),
             climbing(iter, root), self.t_wf(), seek_root < 0x8000_0000_0000, root < 0x2000_0000_0000,
             p.nodes == p0.nodes, p.upgrade == p0.upgrade, p.additional_upgrade == p0.additional_upgrade, p0 == *old(p)
         decreases depth_of(root) - iter.d@
@@ -202,6 +212,7 @@ impl MerkleTree {
     requires:
         self.t_wf(), from % 2 == 0, to % 2 == 0, to < 0x400_0000_0000
     ensures:
+        left_ok(r),
         final(p).nodes == old(p).nodes, final(p).seek == old(p).seek, final(p).upgrade == old(p).upgrade
     first:
         let ghost mut gl: int = 0;
@@ -210,6 +221,7 @@ impl MerkleTree {
         proof { flat_tree::lemma_p2_62(); assert(flat_tree::leaf_aligned(0, 61, to as int)); }
     loop 1:
         invariant
+            instr_tree(instructions@),
             self.t_wf(), from % 2 == 0, to % 2 == 0, to < 0x400_0000_0000, *p == *old(p),
             !has_additional_upgrade ==> from >= 2,
             has_full_root ==> full_root_at(iter, gl, ga, to), gl <= to
@@ -227,14 +239,14 @@ impl MerkleTree {
         proof {
             // iter.contains(from - 2): the last leaf the peer already has lies below this root
             flat_tree::lemma_node_of(iter);
-            assert(p2(0) == 1 && p2(1) == 2) by { reveal_with_fuel(flat_tree::p2, 3); }
-            assert(node_index(0, (target / 2) as int) == target);
+            flat_tree::lemma_leaf_index(target as int);
             flat_tree::lemma_span_anc(0, (target / 2) as int, iter.d@, iter.offset as int);
         }
     after `iter.seek(target);`:
         proof { flat_tree::lemma_node_of(iter); lemma_climb_start(iter, root); }
     loop 2:
         invariant
+            instr_tree(instructions@),
             climbing(iter, root), self.t_wf(), *p == *old(p)
         decreases depth_of(root) - iter.d@
     before `iter.sibling();`:
@@ -252,6 +264,7 @@ impl MerkleTree {
         // the block / hash request is served inside this upgrade only from its own node
         indexed is Some && old(p).nodes is None ==> sub_tree == indexed->Some_0.index
     ensures:
+        left_ok(r),
         final(p).additional_upgrade == old(p).additional_upgrade,
         // C09: the upgrade section is always produced for a non-empty range (create_valueless_proof relies on it)
         r is Ok && from < to ==> final(p).upgrade is Some
@@ -263,6 +276,7 @@ impl MerkleTree {
         proof { flat_tree::lemma_p2_62(); assert(flat_tree::leaf_aligned(0, 61, to as int)); }
     loop 1:
         invariant
+            instr_tree(instructions@),
             self.t_wf(), from % 2 == 0, to % 2 == 0, to < 0x400_0000_0000, sub_tree < 0x8000_0000_0000,
             indexed is Some ==> indexed->Some_0.index < 0x400_0000_0000,
             indexed is Some && p.nodes is None ==> sub_tree == indexed->Some_0.index,
@@ -285,14 +299,14 @@ impl MerkleTree {
         let ghost it_root = iter;
         proof {
             flat_tree::lemma_node_of(iter);
-            assert(p2(0) == 1 && p2(1) == 2) by { reveal_with_fuel(flat_tree::p2, 3); }
-            assert(node_index(0, (target / 2) as int) == target);
+            flat_tree::lemma_leaf_index(target as int);
             flat_tree::lemma_span_anc(0, (target / 2) as int, iter.d@, iter.offset as int);
         }
     after `iter.seek(target);`:
         proof { flat_tree::lemma_node_of(iter); lemma_climb_start(iter, root); }
     loop 2:
         invariant
+            instr_tree(instructions@),
             climbing(iter, root), self.t_wf(), root < 0x400_0000_0000, root + p2(depth_of(root)) <= 0x800_0000_0000, sub_tree < 0x8000_0000_0000,
             indexed is Some ==> indexed->Some_0.index < 0x400_0000_0000,
             indexed is Some && p.nodes is None ==> sub_tree == indexed->Some_0.index,
@@ -321,12 +335,14 @@ impl MerkleTree {
     requires:
         self.t_wf(), root < 0x2000_0000_0000
     ensures:
+        left_ok(r),
         r is Ok && r->Ok_0 is Right ==> r->Ok_0->Right_0 < 0x8000_0000_0000
     after `let mut iter = flat_tree::Iterator::new(root);`:
         let ghost it0 = iter;
         proof { flat_tree::lemma_p2_4x(); flat_tree::lemma_depth_bound(iter, 45); flat_tree::lemma_p2_mono(iter.d@, 45); }
     loop 1:
         invariant
+            instr_tree(instructions@),
             self.t_wf(), iter.wf(), it0.wf(), iter.d@ <= it0.d@, it0.d@ <= 45, it0.index < 0x2000_0000_0000, p2(it0.d@) <= 0x2000_0000_0000,
             iter.index - p2(iter.d@) >= it0.index - p2(it0.d@), iter.index + p2(iter.d@) <= it0.index + p2(it0.d@)
         decreases iter.d@
@@ -350,11 +366,13 @@ impl MerkleTree {
     requires:
         self.t_wf(), head % 2 == 0, head < 0x400_0000_0000
     ensures:
+        left_ok(r),
         r is Ok && r->Ok_0 is Right ==> r->Ok_0->Right_0 < 0x8000_0000_0000
     sub `for root in roots \{` => `let mut vp_i: usize = 0; while vp_i < roots.len() { let root = roots[vp_i]; vp_i += 1;`
     sub `instructions\.extend\((\w+)\);` => `vp_extend(&mut instructions, \1);`
     loop 1:
         invariant
+            instr_tree(instructions@),
             self.t_wf(), head < 0x400_0000_0000, forall|k: int| 0 <= k < roots@.len() ==> (#[trigger] roots@[k]) < head, vp_i <= roots@.len()
         decreases roots@.len() - vp_i
     @*/
@@ -374,6 +392,7 @@ impl MerkleTree {
     requires:
         self.t_wf(), self.roots_wf(), self.nodes_small(nodes), index < 0x8000_0000_0000
     ensures:
+        left_ok(r),
         r is Ok && r->Ok_0 is Right ==> r->Ok_0->Right_0 <= 0x80_0000_0000_0000
     sub `for root_node in &self\.roots \{` => `let mut vp_i: usize = 0; while vp_i < self.roots.len() { let root_node = &self.roots[vp_i]; vp_i += 1;`
     after `let index = if (index & 1) == 1 {`:
@@ -405,6 +424,7 @@ impl MerkleTree {
         }
     loop 2:
         invariant
+            instr_tree(instructions@),
             self.t_wf(), self.nodes_small(nodes), iter.wf(), iter.spans(index as int), index % 2 == 0, index < 0x400_0000_0000,
             iter.d@ <= 42, iter.index < 0x800_0000_0000, offset <= (vp_i + 64 - iter.d@) * 0x1_0000_0000_0000, vp_i <= 64
         decreases iter.d@
@@ -425,8 +445,45 @@ impl MerkleTree {
     requires:
         self.t_wf(), self.roots_wf(), self.nodes_small(nodes), root < 0x2000_0000_0000
     ensures:
+        left_ok(r),
         r is Ok && r->Ok_0 is Right ==> r->Ok_0->Right_0 < 0x8000_0000_0000
     sub `instructions\.extend\((\w+)\);` => `vp_extend(&mut instructions, \1);`
+    @*/
+
+    /*@ fn src/tree/merkle_tree.rs MerkleTree::missing_nodes
+    tags: C03 C09
+    result: r
+    requires:
+        old(self).t_wf(), index < 0x200_0000_0000, infos_readable(infos)
+    ensures:
+        r is Ok && r->Ok_0 is Left ==> r->Ok_0->Left_0@.len() == 1 && instr_tree(r->Ok_0->Left_0@),
+        *final(self) == *old(self),
+        r is Ok && r->Ok_0 is Right ==> r->Ok_0->Right_0 <= 42
+    first:
+        let ghost d0 = depth_of(index);
+        let ghost o0 = offset_of(index);
+    after `let mut iter = flat_tree::Iterator::new(index);`:
+        proof { flat_tree::lemma_p2_4x(); flat_tree::lemma_depth_bound(iter, 41); flat_tree::lemma_p2_mono(iter.d@ + 1, 42); flat_tree::lemma_node_of(iter); flat_tree::lemma_anc_self(d0, o0); }
+    loop 1:
+        invariant
+            self.t_wf(), *self == *old(self), index < 0x200_0000_0000, head == 2 * self.length,
+            iter.wf(), iter.d@ <= 42, o0 >= 0, anc(d0, o0, iter.d@, iter.offset as int), node_index(d0, o0) == index,
+            // C03: the count is the number of levels climbed from the requested node; every climbed step was over an absent node
+            count == iter.d@ - d0
+        decreases 43 - iter.d@
+    before `match self.optional_node(iter.index(), &nodes)? {`:
+        proof {
+            flat_tree::lemma_anc_span(d0, o0, iter.d@, iter.offset as int);
+            flat_tree::lemma_p2_4x(); flat_tree::lemma_p2_mono(iter.d@, 42); flat_tree::lemma_p2_mono(iter.d@ + 1, 43);
+            if iter.d@ > 41 {
+                // 2^(d+1) exceeds both the index and the head: the node is the leftmost of its level and spans the head
+                flat_tree::lemma_p2_mono(43, iter.d@ + 1);
+                flat_tree::lemma_span_small(iter.d@, iter.offset as int, index as int);
+                assert(0 * p2(iter.d@ + 1) == 0);
+                assert(false);
+            }
+            lemma_anc_up(d0, o0, iter.d@, iter.offset as int);
+        }
     @*/
 
     /// a tree that holds blocks has a signature over them (established by open / commit)
@@ -442,6 +499,7 @@ impl MerkleTree {
         hash is Some ==> hash->Some_0.index < 0x200_0000_0000,
         upgrade is Some ==> upgrade->Some_0.start < 0x100_0000_0000 && upgrade->Some_0.length < 0x100_0000_0000
     ensures:
+        r is Ok && r->Ok_0 is Left ==> r->Ok_0->Left_0@.len() > 0 && instr_tree(r->Ok_0->Left_0@),
         *final(self) == *old(self),
         // what is served: this tree's fork; the requested block / hash index and upgrade range; the stored signature (C05)
         r is Ok && r->Ok_0 is Right ==> r->Ok_0->Right_0.fork == old(self).fork
